@@ -11,6 +11,7 @@ package pnet
 import (
 	"errors"
 	"fmt"
+	"io"
 	"path/filepath"
 	"sort"
 	"testing"
@@ -75,6 +76,7 @@ func (r *vfC02PskRun) run() {
 	wire.SetCross(r.pick.Index(2, r.w.Walk, 99) == 0)
 	led := vfc02.NewLedger("psk", vfc02.Content(1), false)
 	nonceRead := false
+	closed, eof := false, false
 	l1 := func(si int, p *vfc02.Problem) bool {
 		if p == nil {
 			return false
@@ -95,12 +97,24 @@ func (r *vfC02PskRun) run() {
 				K = r.pick.Pick(vfC02PskWrite[k], r.w.Walk, si)
 			}
 			before := wire.Written
+			short := op.B("short")
+			if short {
+				wire.InjectShortWrite() // the underlying connection takes a part of the next write and times out
+			}
 			var n int
 			var err error
 			vfc02.Guard("pskConn.Write", func() { n, err = wc.Write(led.Next(K)) })
-			r.log = append(r.log, map[string]any{"op": "write", "k": k, "real": K, "n": n, "err": fmt.Sprint(err)})
+			r.log = append(r.log, map[string]any{"op": "write", "k": k, "real": K, "short": short, "n": n, "err": fmt.Sprint(err)})
 			if l1(si, led.OnWrite(K, n, err)) {
 				return
+			}
+			if short {
+				// accepted = what Write reported; the walk writes no more (wdead in the model)
+				if err == nil || n >= K {
+					r.mismatch(si, "L2:psk-short-write", fmt.Sprintf("short write of the connection not reported: Write(%d) = (%d, %v)", K, n, err), "n < len, error", n)
+				}
+				r.res.Case("write/short")
+				break
 			}
 			if n != K || err != nil {
 				r.mismatch(si, "L2:psk-write-result", fmt.Sprintf("Write(%d) = (%d, %v)", K, n, err), K, n)
@@ -123,6 +137,17 @@ func (r *vfC02PskRun) run() {
 			}
 			wire.SetCap(c)
 			r.log = append(r.log, map[string]any{"op": "short", "k": op.I("k"), "real": c})
+		case "glitch":
+			if op.S("kind") == "eofdata" {
+				wire.SetEOFWithData(true)
+			}
+			// the one-shot kinds are armed right in front of the call the model lets them hit
+			r.log = append(r.log, map[string]any{"op": "glitch", "kind": op.S("kind")})
+			r.res.Case("glitch/" + op.S("kind"))
+		case "close":
+			ca.Close()
+			closed = true
+			r.log = append(r.log, map[string]any{"op": "close"})
 		case "read":
 			avail := wire.Pending()
 			if !nonceRead {
@@ -158,11 +183,33 @@ func (r *vfC02PskRun) run() {
 			if cap(buf) < b {
 				buf = make([]byte, b+4096)
 			}
+			glitch := op.S("glitch")
+			if glitch == "dataerr" || glitch == "temperr" {
+				wire.InjectRead(glitch)
+			}
 			var n int
 			var err error
 			vfc02.Guard("pskConn.Read", func() { n, err = rc.Read(buf[:b:b]) })
-			r.log = append(r.log, map[string]any{"op": "read", "rel": rel, "real": b, "avail": avail, "n": n, "err": fmt.Sprint(err)})
-			r.res.Case(fmt.Sprintf("read/%s/%v/%v", rel, op.B("nonce"), op.B("dry")))
+			r.log = append(r.log, map[string]any{"op": "read", "rel": rel, "real": b, "avail": avail, "glitch": glitch, "n": n, "err": fmt.Sprint(err)})
+			r.res.Case(fmt.Sprintf("read/%s/%v/%v/%s/%v", rel, op.B("nonce"), op.B("dry"), glitch, op.B("eof")))
+			if glitch == "dataerr" || glitch == "temperr" {
+				if wire.ReadGlitchPending() {
+					wire.InjectRead("")
+					r.mismatch(si, "L2:psk-glitch", "the armed glitch was not reached by this Read", glitch, "none")
+				} else if !vfc02.IsGlitch(err) {
+					r.mismatch(si, "L2:psk-glitch", fmt.Sprintf("the transient error of the connection was not passed on: %v", err), glitch, fmt.Sprint(err))
+				}
+				// a transient error is not a failure of the channel; the bytes that came with it count
+				err = nil
+			}
+			if err != nil && errors.Is(err, io.EOF) && closed {
+				if led.Delivered+n != led.Written {
+					r.mismatch(si, "psk-early-eof", fmt.Sprintf("EOF after %d of %d bytes", led.Delivered+n, led.Written), led.Written, led.Delivered+n)
+					return
+				}
+				eof = true
+				err = nil
+			}
 			if !nonceRead && wire.Served >= vfC02NonceLen {
 				nonceRead = true
 			}
@@ -187,12 +234,18 @@ func (r *vfC02PskRun) run() {
 	if cap(buf) < 1<<16 {
 		buf = make([]byte, 1<<16)
 	}
-	for it := 0; it < 64 && led.Delivered < led.Written; it++ {
+	for it := 0; it < 64 && led.Delivered < led.Written && !eof; it++ {
 		var n int
 		var err error
 		vfc02.Guard("pskConn.Read", func() { n, err = rc.Read(buf[:1<<16]) })
 		r.log = append(r.log, map[string]any{"op": "drain", "n": n, "err": fmt.Sprint(err)})
 		if errors.Is(err, vfc02.ErrDry) {
+			break
+		}
+		if err != nil && errors.Is(err, io.EOF) && closed {
+			if l1(len(r.w.Steps), led.OnRead(buf[:1<<16], n, nil, true)) {
+				return
+			}
 			break
 		}
 		if l1(len(r.w.Steps), led.OnRead(buf[:1<<16], n, err, false)) {
